@@ -1087,6 +1087,117 @@ pub fn small_case(eps: Vec<EpSpec>) -> Case {
     }
 }
 
+// ------------------------------------------------------------------ large
+/// Tables and requests beyond the sizes the random streams reach: deep
+/// templates and paths, wide sibling sets, long literals, many methods on one
+/// path, many version ranges on one (path, method), many variables.  Direct
+/// `register` + `lookup_route` (no wire limits in the way).
+pub fn gen_large(opts: &Opts) -> Vec<Case> {
+    let all = RangeSpec { kind: "all".into(), a: 0, b: 0 };
+    let ep = |id: String, method: &str, path: String, range: RangeSpec| EpSpec {
+        id,
+        method: method.to_string(),
+        path,
+        range,
+        ctype: 0,
+        maxbytes: None,
+        visible: true,
+    };
+    let one = vec!["1.0.0".to_string()];
+    let mut out = vec![];
+    // 1. deep templates: alternating literal / variable, depth D; requests: the
+    //    witness, one segment short, one segment long, a wrong literal deep down
+    let depths: &[usize] = if opts.thorough { &[15, 16, 17, 31, 32, 33, 63, 64, 65, 129] } else { &[16, 17, 33, 65] };
+    for &d in depths {
+        let segs: Vec<String> = (0..d).map(|i| if i % 2 == 0 { format!("l{}", i) } else { format!("{{v{}}}", i) }).collect();
+        let wit: Vec<String> = (0..d).map(|i| if i % 2 == 0 { format!("l{}", i) } else { format!("x{}", i) }).collect();
+        let mut wrong = wit.clone();
+        let k = d - 1 - ((d - 1) % 2);
+        wrong[k] = "zz".into();
+        let mut long = wit.clone();
+        long.push("extra".into());
+        let paths = vec![
+            format!("/{}", wit.join("/")),
+            format!("/{}", wit[..d - 1].join("/")),
+            format!("/{}", long.join("/")),
+            format!("/{}", wrong.join("/")),
+        ];
+        // a sibling that shares all but the last segment, and a wildcard tail under a deep prefix
+        let mut sib = segs.clone();
+        sib[d - 1] = if (d - 1) % 2 == 0 { "other".into() } else { segs[d - 1].clone() };
+        let mut eps = vec![ep(format!("deep{}", d), "GET", format!("/{}", segs.join("/")), all.clone())];
+        let mut paths = paths;
+        if (d - 1) % 2 == 0 {
+            eps.push(ep(format!("sib{}", d), "GET", format!("/{}", sib.join("/")), all.clone()));
+            let mut w2 = wit.clone();
+            w2[d - 1] = "other".into();
+            paths.push(format!("/{}", w2.join("/")));
+        }
+        out.push(Case { chain: one.clone(), eps, paths, methods: vec!["GET".into(), "PUT".into()], versions: vec![None] });
+    }
+    // 2. wide sibling sets under one node
+    let widths: &[usize] = if opts.thorough { &[15, 16, 17, 32, 33, 64, 65, 128, 129, 256, 257, 600] } else { &[17, 33, 65, 257] };
+    for &w in widths {
+        let eps: Vec<EpSpec> =
+            (0..w).map(|i| ep(format!("w{}", i), "GET", format!("/p/lit{:04}/{{x}}", i), all.clone())).collect();
+        let mut paths: Vec<String> = (0..w).map(|i| format!("/p/lit{:04}/a", i)).collect();
+        paths.push(format!("/p/lit{:04}/a", w));
+        paths.push(format!("/p/lit{:04}", w / 2));
+        out.push(Case { chain: one.clone(), eps, paths, methods: vec!["GET".into(), "DELETE".into()], versions: vec![None] });
+    }
+    // 3. long literal segments and long variable values
+    let lens: &[usize] = if opts.thorough { &[63, 64, 65, 127, 128, 255, 256, 257, 1023, 1024, 1025, 4095, 4096, 4097] } else { &[255, 256, 257, 1025] };
+    for &l in lens {
+        let lit: String = std::iter::repeat('a').take(l).collect();
+        let lit_b: String = std::iter::repeat('a').take(l - 1).chain(std::iter::once('b')).collect();
+        let eps = vec![
+            ep("longlit".into(), "GET", format!("/{}/{{v}}", lit), all.clone()),
+            ep("longlit_b".into(), "GET", format!("/{}/{{v}}", lit_b), all.clone()),
+        ];
+        let paths = vec![
+            format!("/{}/{}", lit, lit_b),
+            format!("/{}/{}", lit_b, lit),
+            format!("/{}a/x", lit),
+            format!("/{}/x", &lit[..l - 1]),
+        ];
+        out.push(Case { chain: one.clone(), eps, paths, methods: vec!["GET".into()], versions: vec![None] });
+    }
+    // 4. many methods on one path (extension tokens): 405 lists all of them
+    let ms: &[usize] = if opts.thorough { &[8, 9, 16, 17, 33, 65] } else { &[9, 17, 33] };
+    for &m in ms {
+        let eps: Vec<EpSpec> = (0..m).map(|i| ep(format!("m{}", i), &format!("M{:02}X", i), "/mm/{x}".into(), all.clone())).collect();
+        let mut methods: Vec<String> = (0..=m).map(|i| format!("M{:02}X", i)).collect();
+        methods.push("GET".into());
+        out.push(Case { chain: one.clone(), eps, paths: vec!["/mm/a".into(), "/mm".into()], methods, versions: vec![None] });
+    }
+    // 5. many version ranges on one (path, method): a long chain, disjoint [c(2i), c(2i+1)) ranges
+    let ns: &[usize] = if opts.thorough { &[8, 16, 17, 32, 33] } else { &[9, 17] };
+    for &n in ns {
+        let chain: Vec<String> = (0..2 * n + 1).map(|i| format!("1.{}.0", i)).collect();
+        let mut eps: Vec<EpSpec> = (0..n)
+            .map(|i| ep(format!("r{}", i), "GET", "/vv".into(), RangeSpec { kind: "fromuntil".into(), a: 2 * i, b: 2 * i + 1 }))
+            .collect();
+        // one more that conflicts with the last of them: must be refused
+        eps.push(ep("clash".into(), "GET", "/vv".into(), RangeSpec { kind: "from".into(), a: 2 * n - 2, b: 0 }));
+        let versions: Vec<Option<usize>> = (0..2 * n + 1).map(Some).collect();
+        out.push(Case { chain, eps, paths: vec!["/vv".into()], methods: vec!["GET".into(), "PUT".into()], versions });
+    }
+    // 6. many variables in one template
+    let vs: &[usize] = if opts.thorough { &[8, 16, 17, 32, 33, 64] } else { &[17, 33] };
+    for &n in vs {
+        let t: Vec<String> = (0..n).map(|i| format!("{{v{}}}", i)).collect();
+        let w: Vec<String> = (0..n).map(|i| format!("val{}", i)).collect();
+        let eps = vec![ep(format!("vars{}", n), "GET", format!("/{}/{{rest:.*}}", t.join("/")), all.clone())];
+        let paths = vec![
+            format!("/{}", w.join("/")),
+            format!("/{}/t1/t2/t3", w.join("/")),
+            format!("/{}", w[..n - 1].join("/")),
+        ];
+        out.push(Case { chain: one.clone(), eps, paths, methods: vec!["GET".into()], versions: vec![None] });
+    }
+    out
+}
+
 pub fn gen_small(opts: &Opts) -> Vec<Case> {
     let space = small_space();
     let mut out = vec![];
@@ -1153,6 +1264,8 @@ pub fn run(opts: &Opts, replay: Option<Vec<serde_json::Value>>, out: &mut dyn Wr
                 gen(&o, 4, if opts.thorough { 1200 } else { 120 })
             } else if opts.mode == "small" {
                 gen_small(opts)
+            } else if opts.mode == "large" {
+                gen_large(opts)
             } else {
                 gen(opts, conflict_rate, if opts.thorough { 4000 } else { 400 })
             }
@@ -1167,6 +1280,10 @@ pub fn run(opts: &Opts, replay: Option<Vec<serde_json::Value>>, out: &mut dyn Wr
             let mut l = exec(c);
             if opts.mode == "small" {
                 l.group = "small-scope";
+            }
+            if opts.mode == "large" {
+                l.group = "large";
+                l.tags.push("large".to_string());
             }
             emit(out, &l);
         }
